@@ -192,22 +192,26 @@ def _ambiguous_md(t):
 
 def _poke(t, ref, code):
     """one read accessor chosen by code (content-preserving)"""
-    k = code % 7
-    if k == 0:
+    k = code % 9
+    if k == 7:
+        t.sum()              # whole-table sum: scipy sorts indices in place
+    elif k == 8:
+        t.get_table_density()
+    elif k == 0:
         t.nnz
     elif k == 1:
-        t.data(ref.ids[1][code // 7 % ref.n(1)], axis='sample')
+        t.data(ref.ids[1][code // 9 % ref.n(1)], axis='sample')
     elif k == 2:
-        t.data(ref.ids[0][code // 7 % ref.n(0)], axis='observation')
+        t.data(ref.ids[0][code // 9 % ref.n(0)], axis='observation')
     elif k == 3:
-        for _ in t.iter(axis=AXNAME[(code // 7) & 1]):
+        for _ in t.iter(axis=AXNAME[(code // 9) & 1]):
             pass
     elif k == 4:
         t == t
     elif k == 5:
         list(t.nonzero())
     else:
-        t.sum(axis=AXNAME[(code // 7) & 1])
+        t.sum(axis=AXNAME[(code // 9) & 1])
 
 
 def _eq3(w, a, b, what, want=True):
@@ -792,3 +796,79 @@ def c19_cli(w, ev, slot):
         if os.path.exists(path):
             os.unlink(path)
     return 'c19_cli:ok'
+
+
+# ============================================================ C05 / C16 =====
+@probe('c05_interleave')
+def c05_interleave(w, ev, slot):
+    """several lazy readers on one table, stepped in a PRNG-chosen order with
+    read accessors in between (the schedule is the quantifier of C16 and the
+    'every accessor reports the same matrix' clause of C05)"""
+    from . import reads as R
+    ref, t = slot.ref, slot.real
+    salt, a = ev.get('salt', 0), ev.get('a', 0)
+    readers = []
+
+    def add(kind, gen, expected, cmp, oracle):
+        readers.append({'kind': kind, 'gen': gen, 'exp': list(expected),
+                        'cmp': cmp, 'cur': 0, 'oracle': oracle})
+    if a & 1:
+        add('iter(obs)', t.iter(axis='observation'), R._items_iter(ref, 0),
+            R._cmp_vec_item, 'reader.iter')
+    if a & 2:
+        add('iter(samp)', t.iter(axis='sample', dense=bool(a & 32)),
+            R._items_iter(ref, 1), R._cmp_vec_item, 'reader.iter')
+    if a & 4 or not readers:
+        add('nonzero', t.nonzero(), R._items_nonzero(ref), None,
+            'reader.nonzero')
+    if a & 8 and ref.n(1) <= 4:
+        add('pairwise', t.iter_pairwise(axis='sample', tri=bool(a & 16)),
+            R._items_pairwise(ref, 1, bool(a & 16), False), R._cmp_pair_item,
+            'reader.pairwise')
+    if a & 16:
+        add('iter_data(obs)', t.iter_data(axis='observation'),
+            [ref.vec(0, i) for i in range(ref.n(0))], R._cmp_data_item,
+            'reader.iter')
+    w.case('reader.interleave', 'c05_interleave', slot, kinds=a % 32)
+    steps = 0
+    for i in range(80):
+        if not readers:
+            break
+        code = V.crc(salt, i)
+        if code % 3 == 0:
+            _poke(t, ref, code // 3)
+            w.stats['reader.interleaved_pokes'] += 1
+            continue
+        r = readers[(code // 3) % len(readers)]
+        steps += 1
+        try:
+            item = next(r['gen'])
+        except StopIteration:
+            left = len(r['exp']) if r['kind'] == 'nonzero' else \
+                len(r['exp']) - r['cur']
+            if left:
+                w.fail(r['oracle'], 'suspended %s ended %d items early '
+                       '(interleaved with read accessors)' % (r['kind'], left))
+            readers.remove(r)
+            continue
+        if r['kind'] == 'nonzero':
+            g = (str(item[0]), str(item[1]))
+            if g not in r['exp']:
+                w.fail(r['oracle'], 'suspended nonzero() yielded %r, not a '
+                       'remaining non-zero cell %r (interleaved with read '
+                       'accessors)' % (g, r['exp']))
+            r['exp'].remove(g)
+            continue
+        if r['cur'] >= len(r['exp']):
+            w.fail(r['oracle'], 'suspended %s yielded too many items'
+                   % r['kind'])
+        d = r['cmp'](item, r['exp'][r['cur']])
+        if d:
+            w.fail(r['oracle'], 'suspended %s item %d (interleaved with read '
+                   'accessors): %s' % (r['kind'], r['cur'], d))
+        r['cur'] += 1
+    for r in readers:
+        r['gen'].close()
+    w.stats['reader.interleaved_steps'] += steps
+    w.expect_unchanged(slot, 'reader.source_changed', 'interleaved readers')
+    return 'c05_interleave:ok'
